@@ -175,6 +175,113 @@ Example s2n_regression :
 Proof. repeat split; vm_compute; reflexivity. Qed.
 
 (* ------------------------------------------------------------------------------------------------ *)
+(* number -> string                                                                                 *)
+(* ------------------------------------------------------------------------------------------------ *)
+Lemma q_is_int_Qeq p q : Qeq p q -> q_is_int p = q_is_int q.
+Proof.
+  destruct p as [a b], q as [c d]. unfold Qeq, q_is_int. cbn [Qnum Qden]. intro H.
+  destruct (a mod Z.pos b =? 0) eqn:Ha; destruct (c mod Z.pos d =? 0) eqn:Hc; try reflexivity; exfalso.
+  - apply Z.eqb_eq in Ha. apply Z.mod_divide in Ha; [|lia]. destruct Ha as [k Hk]. subst a.
+    assert (c = k * Z.pos d) by nia. subst c. rewrite Z.mod_mul in Hc by lia. discriminate.
+  - apply Z.eqb_eq in Hc. apply Z.mod_divide in Hc; [|lia]. destruct Hc as [k Hk]. subst c.
+    assert (a = k * Z.pos b) by nia. subst a. rewrite Z.mod_mul in Ha by lia. discriminate.
+Qed.
+
+Lemma q_is_int_inject z : q_is_int (inject_Z z) = true.
+Proof. unfold q_is_int. cbn [inject_Z Qnum Qden]. rewrite Z.mod_1_r. reflexivity. Qed.
+
+(* an integer rounded to [prec] bits is an integer *)
+Lemma rnd_int_is_int prec u : q_is_int (rnd prec (inject_Z u)) = true.
+Proof.
+  unfold rnd. cbn [inject_Z Qnum]. destruct (u <=? 0); [reflexivity|].
+  unfold rnd_pos. cbv zeta. cbn [inject_Z Qnum Qden].
+  set (e := if _ <? 2 ^ prec then _ else _). clearbody e.
+  rewrite (q_is_int_Qeq _ _ (Qred_correct _)).
+  unfold pow2. destruct (0 <=? e) eqn:He; cbn [fst snd].
+  - match goal with |- q_is_int (inject_Z ?a * inject_Z ?b) = true => generalize a; intro m' end.
+    unfold q_is_int, Qmult. cbn [inject_Z Qnum Qden]. rewrite Z.mod_1_r. reflexivity.
+  - rewrite Z.mod_1_r, Z.div_1_r. change (2 * 0 ?= 1) with Lt. cbv iota.
+    unfold q_is_int, Qmult. cbn [inject_Z Qnum Qden]. rewrite Pos.mul_1_l.
+    rewrite Z2Pos.id by (apply Z.pow_pos_nonneg; lia).
+    rewrite Z.mul_1_r. rewrite Z.mod_mul by (apply Z.pow_nonzero; lia). reflexivity.
+Qed.
+
+Lemma Qred_inject_Z v : Qred (inject_Z v) = inject_Z v.
+Proof.
+  unfold Qred, inject_Z. pose proof (Z.ggcd_correct_divisors v 1) as H. pose proof (Z.ggcd_gcd v 1) as Hg.
+  destruct (Z.ggcd v 1) as [g [aa bb]]. cbn [fst] in Hg. rewrite Z.gcd_1_r in Hg. subst g.
+  destruct H as [H1 H2]. cbn [snd]. rewrite Z.mul_1_l in H1, H2. subst aa bb. reflexivity.
+Qed.
+
+(* a long double (a fixed point of the rounding, in lowest terms) with an integral value is that integer over 1 *)
+Lemma ld_int m : rnd 64 m = m -> q_is_int m = true -> m = inject_Z (q_int_val m).
+Proof.
+  intros H Hi.
+  assert (Heq : Qeq m (inject_Z (q_int_val m))).
+  { destruct m as [a b]. unfold q_is_int, q_int_val, Qeq in *. cbn [Qnum Qden inject_Z] in *.
+    pose proof (Z.div_mod a (Z.pos b) ltac:(lia)). lia. }
+  assert (Hred : Qred m = m).
+  { unfold rnd in H. destruct (Qnum m <=? 0).
+    - rewrite <- H. reflexivity.
+    - unfold rnd_pos in H. match type of H with Qred ?X = _ => set (X0 := X) in H end.
+      rewrite <- H. apply Qred_complete. apply Qred_correct. }
+  rewrite <- Hred at 1. rewrite (Qred_complete _ _ Heq). apply Qred_inject_Z.
+Qed.
+
+Lemma round_dec_int m : q_is_int m = true -> round_dec m 0 = q_int_val m.
+Proof.
+  intro Hi. unfold round_dec. change (inject_Z (10 ^ Z.of_nat 0)) with 1%Q.
+  assert (Ht : Qeq (Qred (m * 1)) m) by (rewrite Qred_correct; ring).
+  rewrite (Qfloor_comp _ _ Ht).
+  assert (Hf : Qfloor m = q_int_val m) by (destruct m; reflexivity). rewrite Hf.
+  assert (Hr : Qeq (Qred (Qred (m * 1) - inject_Z (q_int_val m))) 0).
+  { rewrite Qred_correct, Ht. destruct m as [a b]. unfold q_is_int, q_int_val, Qeq, Qminus, Qplus, Qopp in *.
+    cbn [Qnum Qden inject_Z] in *. pose proof (Z.div_mod a (Z.pos b) ltac:(lia)). nia. }
+  rewrite (Qcompare_comp _ _ Hr (1 # 2) (1 # 2) (Qeq_refl _)). reflexivity.
+Qed.
+
+Lemma shortest_decimals_ge prec m fuel : forall j, (j <= shortest_decimals prec m j fuel)%nat.
+Proof.
+  induction fuel as [|f IH]; intro j; cbn [shortest_decimals]; [lia|].
+  destruct (Qeq_bool _ m); [lia|]. specialize (IH (S j)). lia.
+Qed.
+
+(* the numbers of the code: long doubles *)
+Definition x_ld (x : xnum) : Prop := match x with XFin _ m => rnd 64 m = m | _ => True end.
+
+(* lyxp_set_cast() to string (since /repo 54bf5db) is string() of the recommendation (read at the precision of the
+   code) for EVERY long double: NaN, infinities, zeros, integers in and beyond the long long range, fractions *)
+Theorem n2s_impl_eq_spec x : x_ld x -> impl_n2s x = spec_n2s 64 x.
+Proof.
+  destruct x as [|neg|neg m]; try reflexivity. cbn [x_ld]. intro Hld.
+  unfold impl_n2s, spec_n2s. destruct (q_is_zero m) eqn:Hz; [reflexivity|].
+  destruct (q_is_int m) eqn:Hi.
+  - (* integers *)
+    match goal with |- (if true && ?c1 && ?c2 then _ else _) = _ => destruct (true && c1 && c2) end; [reflexivity|].
+    cbn [shortest_decimals]. rewrite (round_dec_int m Hi).
+    change (Z.to_pos (10 ^ Z.of_nat 0)) with 1%positive.
+    change (q_int_val m # 1) with (inject_Z (q_int_val m)). rewrite <- (ld_int m Hld Hi). rewrite Hld.
+    rewrite (proj2 (Qeq_bool_iff m m) (Qeq_refl m)). cbn [print_dec]. rewrite (round_dec_int m Hi). reflexivity.
+  - (* fractions: no digits after the point never reads back, then the same search *)
+    cbn [andb]. cbn [shortest_decimals].
+    change (Z.to_pos (10 ^ Z.of_nat 0)) with 1%positive.
+    change (round_dec m 0 # 1) with (inject_Z (round_dec m 0)).
+    destruct (Qeq_bool (rnd 64 (inject_Z (round_dec m 0))) m) eqn:Hq.
+    + apply Qeq_bool_iff in Hq. apply q_is_int_Qeq in Hq. rewrite rnd_int_is_int, Hi in Hq. discriminate.
+    + pose proof (shortest_decimals_ge 64 m frac_digits_max 1%nat) as Hge.
+      destruct (shortest_decimals 64 m 1 frac_digits_max) as [|j]; [lia|]. reflexivity.
+Qed.
+
+(* regression values (each was a listed deviation until /repo 54bf5db: one fraction digit, '.0' on big integers) *)
+Example n2s_regression :
+  impl_n2s (XFin false (1 # 4)) = B [48; 46; 50; 53] /\                                    (* 0.25 *)
+  impl_n2s (impl_s2n 64 (B [45; 48; 46; 48; 53])) = B [45; 48; 46; 48; 53] /\              (* -0.05 *)
+  impl_n2s (XFin false (inject_Z (2 ^ 63))) = B [57;50;50;51;51;55;50;48;51;54;56;53;52;55;55;53;56;48;56] /\
+  impl_n2s (XFin true (inject_Z (2 ^ 63))) = 45%N :: B [57;50;50;51;51;55;50;48;51;54;56;53;52;55;55;53;56;48;56] /\
+  impl_n2s (XFin false (3 # 2)) = B [49; 46; 53] /\ impl_n2s (XFin true 0) = B [48] /\ impl_n2s XNaN = B [78; 97; 78].
+Proof. repeat split; vm_compute; reflexivity. Qed.
+
+(* ------------------------------------------------------------------------------------------------ *)
 (* floor / ceiling / round                                                                          *)
 (* ------------------------------------------------------------------------------------------------ *)
 (* a number is well formed when its magnitude is not negative *)
